@@ -63,6 +63,10 @@ def align(**kwargs: Union[SimpleNamespace, List[SimpleNamespace]]) -> List[Simpl
 
     # Set new delays
     for i in range(len(objects)):
+        # The copies get new delays: a library ID taken over from the input event would make add_block() store the
+        # input event (with its old delay) instead of the aligned copy
+        if hasattr(objects[i], 'id'):
+            delattr(objects[i], 'id')
         if alignments[i] == 0:
             objects[i].delay = 0
         elif alignments[i] == 1:
